@@ -34,7 +34,7 @@ func (g *Gen) SpecialNode() (*refcbor.Node, string) {
 		}
 		return refcbor.Bstr(b), "bstr"
 	case 8:
-		ts := []string{"", "x", P2Name, P1Name, "1234567890123", "1234567890123-12345", "http://example.com/psa"}
+		ts := []string{"", "x", P2Name, P1Name, "1234567890123", "1234567890123-12345", "http://example.com/psa", LongTexts[g.R.Intn(len(LongTexts))], LongTexts[g.R.Intn(len(LongTexts))]}
 		if g.R.Intn(4) == 0 {
 			bad := []string{"\xff\xfe", "ok\xc3\x28", "\xc0\xaf", "\xed\xa0\x80", "1234567890123-1234\xff", "\x80"}
 			return refcbor.Tstr(bad[g.R.Intn(len(bad))]), "tstr-invalid-utf8"
